@@ -3,6 +3,7 @@ import NutsModel.C06.Admit
 import NutsModel.C06.Cfg
 import NutsModel.C06.Framing
 import NutsModel.C06.Shelf
+import NutsModel.C06.Create
 open Lean Nuts.Drv Nuts.C06 Nuts
 
 namespace Nuts.Drv.C06
@@ -175,6 +176,31 @@ def step (d : DSt) (j : Json) : DSt × List String :=
       | none => "e"
       | some b => s!"{b.length}:{String.join ((b.take 4).map fun x => String.ofList [hexDigitC (x / 16), hexDigitC (x % 16)])}:{b.foldl (fun a c => (a * 31 + c) % 1000003) 0}"
     (d, [s!"fr={fr} segs={segs.length} dec={String.intercalate "," ds}"])
+  | "newtx" =>
+    let prevs := (jStrs j "prevs").map hexNat
+    let pal : Option (List String) := match (j.getObjValAs? Nat "paln").toOption with
+      | none => none
+      | some n => some ((List.range n).map fun i => s!"pal{i}")
+    let lc := jNat j "lc"
+    let sigt := jInt j "sigt"
+    let kid := jStr j "kid"
+    let key : Create.KeyRef := if jBool j "embed" then .jwk else .kid kid
+    match Create.newTransaction (hexNat (jStr j "ph")) (jStr j "cty") prevs pal lc with
+    | .err e => (d, ["err:" ++ e])
+    | .panic p => (d, ["panic:" ++ p])
+    | .ok u =>
+      let pre := s!"new prevs=[{String.intercalate "," (u.prevs.map short)}] nilprevs={u.prevs.isEmpty} ver={u.version} lc={u.clock} zero={resCls (Create.signPrecheck true false)}"
+      match Create.signPrecheck (sigt == 0) false with
+      | .err e => (d, [s!"{pre} | sign=err:{e}"])
+      | .panic p => (d, [s!"{pre} | sign=panic:{p}"])
+      | .ok _ =>
+        let h := Create.signHdr u sigt "ES256" key 0 true
+        match parse srcCfg (fun _ => true) h with
+        | .err e => (d, [s!"{pre} | sign=err:{e}"])
+        | .panic p => (d, [s!"{pre} | sign=panic:{p}"])
+        | .ok t =>
+          let names := sortStrs (["alg", "crit", "cty", (if h.hasJwk then "jwk" else "kid")] ++ h.priv.map (·.1))
+          (d, [s!"{pre} | sign=ok alg={t.alg} ph={short t.payloadHash} cty={quote t.cty} jwk={t.jwk} kid={quote t.kid} sigt={t.sigt} ver={t.ver} prevs=[{String.intercalate "," (t.prevs.map short)}] pal={t.pal.length} lc={t.clock} names={String.intercalate "," names} crit={String.intercalate "," Create.critHeaders} again={resCls (Create.signPrecheck false true)}"])
   | "hashlist" =>
     let input := bytesOfB64 (jStr (jObj j "call") "in")
     let parsed := Shelf.parseHashList input
